@@ -12,7 +12,7 @@ CHECKS = {
          "Not decided: the integer arithmetic of bump_up/bump_down (C11), users' unsafe contracts."),
  "C03": ("Checkpoint = (chunk, position) and its restore write (R1); scope-guard protocol incl. drop on return and on unwind of the user closure, checkpoint before align in scoped_aligned (R2); reset_to restores position and current chunk on every path, reset_to_start rewinds to the first chunk (R3); no chunk is freed on any scope-exit path (R4); new chunks only after later chunks were tried (R5); alloc_try_with(_mut) checkpoint-before-allocate and Err rewind (R6).",
          "Not decided: numeric equality of allocated() before/after, that reset loops stop requesting chunks after finitely many rounds."),
- "C04": ("Exploration of a generated program space with rustc as the oracle: every witness (producer x handle x escape route; Send/Sync; settings conversions) must be rejected with an expected diagnostic, every twin accepted; compiled against the rlib built from the working tree in the same run. Supporting MIR rules: bounds on unsafe impl Send/Sync (R1), enumeration/coverage of lifetime-laundering functions (R2).",
+ "C04": ("Exploration of a generated program space with rustc as the oracle: every witness (producer x handle x escape route; Send/Sync; settings conversions) must be rejected with an expected diagnostic, every twin accepted; compiled against the rlib built from the working tree in the same run. Supporting MIR rules: bounds on unsafe impl Send/Sync (R1), enumeration/coverage of lifetime-laundering functions (R2); type-level signature rules over all safe functions: every lifetime of a return type is anchored in the arguments (R3), a by-value handle argument keeps its lifetime in a handle-returning function (R4). Owner-overwrite witnesses (an owned BumpScope value stored into an owning arena's storage) - five of them compile on the current tree and are listed as known findings.",
          "Not decided: safe programs outside the generated grammar; code using `unsafe`. Trusts rustc's borrow checker, trait solver and const evaluation."),
  "C05": ("Who may call the base allocator: one allocate and one deallocate site, never from unallocated constructors (R1); drop releases every chunk exactly once on every path, walks read links before freeing, into_raw suppresses the drop (R2); reset keeps exactly the last chunk (R3); release layout agrees with the request: same alignment atom, pointer chunk_start, size chunk_end-chunk_start, no header read after the release (R4); a failed chunk creation links nothing (R5).",
          "Not decided: 'released size >= requested size' as a number (arithmetic of C12); behaviour of a faulty base allocator."),
